@@ -224,6 +224,9 @@ func run(c *harness.Case) {
 	}
 	pendingRemoved := map[string]bool{} // removed since the last lookup (sweep not yet run)
 	targetLookups := c.Pick(200, 300)
+	if big {
+		targetLookups = c.Pick(50, 80) // fresh rings of several thousand virtual nodes are expensive
+	}
 	sizes := map[int]bool{}
 	for lookups < targetLookups {
 		// 0..6 mutations
